@@ -267,4 +267,357 @@ theorem recover_is_prefix (hp : p.WF) (s : State) (hinv : Inv p s) (hs : Option 
       rw [absOf_save_meta, habsU] at this
       rw [hUmt]; exact this
 
+/-! ### crash inside `DeleteBefore` and `CreateSnapshot` -/
+
+theorem mem_crashStates_rmFirst (s : State) : ∀ (l : List LogFile) (k : Nat),
+    ∀ x ∈ crashStates p { s with files := s.files.drop k } (l.map (fun f => Mut.rmFirst f.fid)),
+      ∃ k', k ≤ k' ∧ k' ≤ k + l.length ∧ x = { s with files := s.files.drop k' } := by
+  intro l
+  induction l with
+  | nil =>
+    intro k x hx
+    simp only [List.map_nil, crashStates, List.mem_singleton] at hx
+    exact ⟨k, Nat.le_refl _, by simp, hx⟩
+  | cons f l ih =>
+    intro k x hx
+    simp only [List.map_cons, crashStates, safeTorn, List.nil_append, List.mem_cons] at hx
+    rcases hx with rfl | hx
+    · exact ⟨k, Nat.le_refl _, by simp, rfl⟩
+    · have : applyMut p { s with files := s.files.drop k } (.rmFirst f.fid) = { s with files := s.files.drop (k + 1) } := by
+        simp [applyMut, List.tail_drop]
+      rw [this] at hx
+      obtain ⟨k', h1, h2, h3⟩ := ih (k + 1) x hx
+      exact ⟨k', by omega, by simp only [List.length_cons]; omega, h3⟩
+
+/-- **crash inside a DeleteBefore**: the files go oldest first, every directory in between is
+the store compacted a little less far — a compaction the contract allows for `DeleteBefore i` -/
+theorem delete_crash_ok (hp : p.WF) (s : State) (hinv : Inv p s) (i : Nat) :
+    ∀ x ∈ crashStates p s (deleteBeforeMuts p s i),
+      ∃ f', (abs p s).mayCompactTo i f' ∧ Recovers p x ((abs p s).compactTo f') := by
+  obtain ⟨a, ess, ec, r⟩ := hinv
+  rw [r.abs_eq hp]
+  have hsame : ∀ x, x = s → ∃ f', (absOf a ess ec s.mt).mayCompactTo i f' ∧ Recovers p x ((absOf a ess ec s.mt).compactTo f') := by
+    intro x hx; rw [hx]
+    refine ⟨(absOf a ess ec s.mt).first, ⟨Nat.le_refl _, Or.inl rfl⟩, ?_⟩
+    have := r.dirRep.recovers hp
+    rw [absD_eq_absOf _ r.curNe] at this
+    simpa [SpecState.compactTo] using this
+  have h0 : ({ s with files := s.files.drop 0 } : State) = s := by simp
+  intro x hx
+  by_cases hec : ec = []
+  · have hess := r.curNe hec
+    subst hec; subst hess
+    have hf : s.files = [] := r.files_nil_iff.mpr rfl
+    have hsg : slotGe p s i = (none, none) := by simp [slotGe, r.cur.slotGe_nil, hf]
+    simp only [deleteBeforeMuts, hsg, crashStates, List.mem_singleton] at hx
+    exact hsame x hx
+  · by_cases hlt : i < a
+    · have h1 := r.slotGe_below i hlt
+      have : deleteBeforeMuts p s i = [] := by
+        simp only [deleteBeforeMuts]
+        match hsg : slotGe p s i with
+        | (x, none) => rfl
+        | (x, some y) => rw [hsg] at h1; simp at h1
+      rw [this] at hx
+      simp only [crashStates, List.mem_singleton] at hx
+      exact hsame x hx
+    · have hall : ess.flatten ++ ec ≠ [] := fun h => hec (r.all_nil_iff.mp h)
+      have hecl : 0 < ec.length := List.length_pos_iff.mpr hec
+      -- the files that go, and the bound on the first index of every state in between
+      have key : ∀ j, j ≤ ess.length → a + pre ess j ≤ i → ∀ l : List LogFile, l.length = j →
+          (∀ x ∈ crashStates p s (l.map (fun f => Mut.rmFirst f.fid)),
+            ∃ f', (absOf a ess ec s.mt).mayCompactTo i f' ∧ Recovers p x ((absOf a ess ec s.mt).compactTo f')) := by
+        intro j hj hji l hl x hx
+        rw [← h0] at hx
+        obtain ⟨k, _, hk2, rfl⟩ := mem_crashStates_rmFirst (p := p) s l 0 x hx
+        rw [hl, Nat.zero_add] at hk2
+        have hd := r.drop_files k
+        refine ⟨a + pre ess k, ⟨by simp [absOf, hec], ?_⟩, ?_⟩
+        · right
+          have hple := pre_le_flatten ess k
+          have hmono := pre_mono ess hk2
+          simp only [absOf, hec, if_false, SpecState.logLast]
+          have : (ess.flatten ++ ec).isEmpty = false := by simp [hall]
+          simp only [this, Bool.false_eq_true, if_false, List.length_append]
+          omega
+        · have := hd.dirRep.recovers hp
+          rw [absD_eq_absOf _ hd.curNe, absOf_drop r k hec] at this
+          exact this
+      by_cases hcur : curStart a ess ≤ i
+      · have hsg := r.slotGe_cur hec i hcur
+        have hm : deleteBeforeMuts p s i = s.files.map (fun f => Mut.rmFirst f.fid) := by
+          simp [deleteBeforeMuts, hsg]
+        rw [hm] at hx
+        refine key ess.length (Nat.le_refl _) ?_ s.files r.chain.len x hx
+        rw [pre_ge ess _ (Nat.le_refl _)]; simp only [curStart] at hcur; exact hcur
+      · have hlt2 : i < a + ess.flatten.length := by simp only [curStart] at hcur; omega
+        obtain ⟨j, hj, hj1, hj2⟩ := r.chain.locate i (by omega) hlt2
+        have hsg := r.slotGe_rot i j hj hj1 hj2
+        have hfj : ¬ j ≥ s.files.length := by rw [r.chain.len]; omega
+        have hm : deleteBeforeMuts p s i = (s.files.take j).map (fun f => Mut.rmFirst f.fid) := by
+          simp [deleteBeforeMuts, hsg, hfj]
+        rw [hm] at hx
+        exact key j (by omega) hj1 (s.files.take j) (by rw [List.length_take, r.chain.len]; omega) x hx
+
+/-- **crash inside a CreateSnapshot**: one write; before it the old snapshot, after it the new one -/
+theorem mksnap_crash_ok (hp : p.WF) (s : State) (hinv : Inv p s) (i : Nat) (sn : Snapshot) :
+    ∀ x ∈ crashStates p s (mksnapMuts p s i sn),
+      Recovers p x (abs p s) ∨ ∃ s', createSnapshot p s i sn = .ok s' ∧ Inv p s' ∧ Recovers p x (abs p s') := by
+  obtain ⟨a, ess, ec, r⟩ := hinv
+  have hold : Recovers p s (abs p s) := by
+    have := r.dirRep.recovers hp
+    rwa [absD_eq_absOf _ r.curNe, ← r.abs_eq hp] at this
+  intro x hx
+  simp only [mksnapMuts] at hx
+  by_cases h1 : i < logFirstIndex s
+  · simp only [h1, if_true, crashStates, List.mem_singleton] at hx
+    subst hx; exact Or.inl hold
+  · simp only [h1, if_false] at hx
+    match hse : seekEntry p s i with
+    | .error e =>
+      simp only [hse, crashStates, List.mem_singleton] at hx
+      subst hx; exact Or.inl hold
+    | .ok e =>
+      simp only [hse] at hx
+      by_cases hv : ({ sn with index := i, term := e.term } : Snapshot).isValid
+      · simp only [snapMuts, hv, if_true, crashStates, safeTorn, List.nil_append, List.mem_cons, List.mem_nil_iff, or_false] at hx
+        rcases hx with rfl | rfl
+        · exact Or.inl hold
+        · right
+          have hcs : createSnapshot p s i sn = .ok { s with mt := storeSnapshot s.mt (some { sn with index := i, term := e.term }) } := by
+            simp only [createSnapshot, h1, if_false, hse]
+          have r' := r.with_mt _ (storeSnapshot_ok s.mt (some { sn with index := i, term := e.term }) r.mtOK)
+          refine ⟨_, hcs, ⟨a, ess, ec, r'⟩, ?_⟩
+          have hx : applyMut p s (.snap { sn with index := i, term := e.term }) =
+              { s with mt := storeSnapshot s.mt (some { sn with index := i, term := e.term }) } := by
+            simp [applyMut, storeSnapshot, hv]
+          rw [hx]
+          have := r'.dirRep.recovers hp
+          rwa [absD_eq_absOf _ r'.curNe, ← r'.abs_eq hp] at this
+      · simp only [snapMuts, hv, Bool.false_eq_true, if_false, crashStates, List.mem_singleton] at hx
+        subst hx; exact Or.inl hold
+
+/-! ### what `CrashSpec` says, entry by entry -/
+
+/-- **no hole, no foreign term, per entry**: a state a crash inside `Save` may leave holds a
+prefix of the old log followed by a prefix of the entries being saved — an entry of the save is
+there (with its own term and payload) together with all entries of the save before it, or it is
+not there and neither is any later one; the hard state is the old one, or the new one and then
+all entries are there; the snapshot is the old one, or the new one and then the hard state is
+the new one as well. -/
+theorem save_crash_atomic_per_entry (σ σ' : SpecState) (hs : Option HardState) (ents : List Entry) (sn : Option Snapshot)
+    (h : CrashSpec σ hs ents sn σ') :
+    ∃ M j, j ≤ ents.length ∧ σ'.ents = σ.ents.take M ++ ents.take j ∧
+      (σ'.hs = σ.hs ∨ (j = ents.length ∧ σ'.hs = (σ.setHardState hs).hs)) ∧
+      (σ'.snap = σ.snap ∨ (j = ents.length ∧ σ'.hs = (σ.setHardState hs).hs ∧ σ'.snap = (σ.setSnapshot sn).snap)) := by
+  have happ : ∀ new : List Entry, ∃ M, (σ.append new).ents = σ.ents.take M ++ new ∧ (σ.append new).hs = σ.hs ∧
+      (σ.append new).snap = σ.snap := by
+    intro new
+    cases new with
+    | nil => exact ⟨σ.ents.length, by simp [SpecState.append], rfl, rfl⟩
+    | cons e0 rest =>
+      by_cases he : σ.ents.isEmpty
+      · refine ⟨0, ?_, ?_, ?_⟩ <;> simp [SpecState.append, he]
+      · refine ⟨e0.index - σ.first, ?_, ?_, ?_⟩ <;> simp [SpecState.append, he]
+  have hsh : ∀ τ : SpecState, (τ.setHardState hs).ents = τ.ents ∧ (τ.setHardState hs).snap = τ.snap := by
+    intro τ; unfold SpecState.setHardState
+    cases hs with
+    | none => exact ⟨rfl, rfl⟩
+    | some x => by_cases hx : x.isEmpty <;> simp [hx]
+  have hsn : ∀ τ : SpecState, (τ.setSnapshot sn).ents = τ.ents ∧ (τ.setSnapshot sn).hs = τ.hs := by
+    intro τ; unfold SpecState.setSnapshot
+    cases sn with
+    | none => exact ⟨rfl, rfl⟩
+    | some x => by_cases hx : x.isValid <;> simp [hx]
+  have hhs : ∀ τ : SpecState, τ.hs = σ.hs → (τ.setHardState hs).hs = (σ.setHardState hs).hs := by
+    intro τ hτ; unfold SpecState.setHardState
+    cases hs with
+    | none => exact hτ
+    | some x => by_cases hx : x.isEmpty <;> simp [hx, hτ]
+  have hsnp : ∀ τ : SpecState, τ.snap = σ.snap → (τ.setSnapshot sn).snap = (σ.setSnapshot sn).snap := by
+    intro τ hτ; unfold SpecState.setSnapshot
+    cases sn with
+    | none => exact hτ
+    | some x => by_cases hx : x.isValid <;> simp [hx, hτ]
+  cases h with
+  | pref j hj =>
+    obtain ⟨M, h1, h2, h3⟩ := happ (ents.take j)
+    exact ⟨M, j, hj, h1, Or.inl h2, Or.inl h3⟩
+  | cut M e0 rest h1 h2 h3 =>
+    refine ⟨M, 0, Nat.zero_le _, ?_, Or.inl ?_, Or.inl ?_⟩
+    · unfold SpecState.cutAt; split <;> simp_all
+    · unfold SpecState.cutAt; split <;> rfl
+    · unfold SpecState.cutAt; split <;> rfl
+  | entsHs =>
+    obtain ⟨M, h1, h2, h3⟩ := happ ents
+    refine ⟨M, ents.length, Nat.le_refl _, ?_, Or.inr ⟨rfl, hhs _ h2⟩, Or.inl ?_⟩
+    · rw [(hsh _).1, h1, List.take_length]
+    · rw [(hsh _).2, h3]
+  | all =>
+    obtain ⟨M, h1, h2, h3⟩ := happ ents
+    refine ⟨M, ents.length, Nat.le_refl _, ?_, Or.inr ⟨rfl, ?_⟩, Or.inr ⟨rfl, ?_, ?_⟩⟩
+    · simp only [SpecState.saveKeep]
+      rw [(hsn _).1, (hsh _).1, h1, List.take_length]
+    · simp only [SpecState.saveKeep]; rw [(hsn _).2]; exact hhs _ h2
+    · simp only [SpecState.saveKeep]; rw [(hsn _).2]; exact hhs _ h2
+    · simp only [SpecState.saveKeep]; exact hsnp _ (by rw [(hsh _).2, h3])
+
+/-! ### non-vacuity -/
+
+/-- the first save of `Props.lean` (three entries into the empty store, the third rolls into a
+second file): 9 mutations — per entry a record and a slot, and `trunc, create, fill` of the
+rotation — and 52 crash states (10 boundaries + every prefix of the three record writes + the
+slot writes cut inside the term) -/
+theorem crashStates_save1 :
+    (saveMuts p0 (initState p0) none save1 none).map Mut.len = [5, 32, 6, 32, 0, 0, 100, 4, 32] ∧
+    (crashStates p0 (initState p0) (saveMuts p0 (initState p0) none save1 none)).length = 52 := by
+  constructor <;> decide
+
+/-- … and `recover_is_prefix` applies to all of them -/
+example : ∀ x ∈ crashStates p0 (initState p0) (saveMuts p0 (initState p0) none save1 none),
+    ∃ σ', CrashSpec (abs p0 (initState p0)) none save1 none σ' ∧ Recovers p0 x σ' :=
+  recover_is_prefix p0_wf _ (inv_init p0_wf) none save1 none save1_ok
+
+/-- the conflicting save into the rotated file: remove the newer file, zero the tail of the
+older one (one write: 4 + 64 bytes), then the loop, which rotates again -/
+theorem crashStates_save2 :
+    (saveMuts p0 (save p0 (initState p0) none save1 none) none save2 none).map Mut.len = [0, 68, 5, 32, 0, 0, 100, 5, 32] ∧
+    (crashStates p0 (save p0 (initState p0) none save1 none) (saveMuts p0 (save p0 (initState p0) none save1 none) none save2 none)).length = 38 := by
+  constructor <;> decide
+
+/-! ### torn writes that are not harmless (finding `torn_write_*`)
+
+The format has no checksum and no commit mark: a slot becomes visible with its index field,
+a conflicting append clears the old tail with one long write from the front.  A machine that
+dies inside such a write can leave the following behind. -/
+
+theorem mixField_full (new old : Nat) : mixField new old 8 = new := by
+  simp [mixField, Nat.mod_one]
+
+theorem zfb_empty (v q lo hi : Nat) (hv : v < 18446744073709551616) (h : hi ≤ lo) : zeroFieldBytes v q lo hi = v := by
+  simp only [zeroFieldBytes]
+  rw [keepByte_dis (by omega), keepByte_dis (by omega), keepByte_dis (by omega), keepByte_dis (by omega),
+    keepByte_dis (by omega), keepByte_dis (by omega), keepByte_dis (by omega), keepByte_dis (by omega)]
+  omega
+
+theorem mixField_none (new old : Nat) (h : new < 18446744073709551616) : mixField new old 0 = old % 18446744073709551616 := by
+  simp only [mixField]
+  have : new / 256 ^ (8 - 0) = 0 := Nat.div_eq_of_lt (by simpa using h)
+  simp [this]
+
+/-- **a slot write cut after the index field** (16 of its 32 bytes): the entry is visible —
+its slot carries the index and the term — but its offset field is still 0, so it reads back
+with an empty payload (and whatever type the slot held before).  The record itself is intact in
+the data area; the store cannot tell. -/
+theorem torn_slot_breaks (hp : p.WF) (f : LogFile) (es : List Entry) (r : FileRep p f es) (hlen : es.length < p.cap)
+    (re : Entry) (hok : re.OK) :
+    let off := p.dataOff + total es
+    let f' := setSlot (writePayload p f off re.data) es.length (tornSlot (getSlot f es.length) ⟨re.term, re.index, re.typ, off⟩ 16)
+    getRaftEntry p f' es.length = some ⟨re.term, re.index, (getSlot f es.length).typ % 18446744073709551616, ByteArray.empty⟩ ∧
+      firstEmptySlot p f' = es.length + 1 := by
+  intro off f'
+  have hts : es.length < (writePayload p f off re.data).tab.size := by
+    show es.length < f.tab.size
+    rw [r.tabSize]; exact hlen
+  have hoff : off < 18446744073709551616 := by have := r.endLt; omega
+  have ⟨he1, he2⟩ := r.empty es.length (Nat.le_refl _)
+  have hslot : getSlot f' es.length = ⟨re.term, re.index, (getSlot f es.length).typ % 18446744073709551616, 0⟩ := by
+    show getSlot (setSlot _ _ _) _ = _
+    rw [getSlot_setSlot _ _ _ _ hts]
+    simp only [if_true, tornSlot]
+    have e1 : min 8 16 = 8 := by decide
+    have e2 : min 8 (16 - 8) = 8 := by decide
+    have e3 : min 8 (16 - 16) = 0 := by decide
+    have e4 : min 8 (16 - 24) = 0 := by decide
+    simp only [e1, e2, e3, e4]
+    rw [mixField_full, mixField_full, mixField_none _ _ hok.typ_lt, mixField_none _ _ hoff, he2]
+  constructor
+  · simp only [getRaftEntry, hslot]
+    simp
+  · apply sortSearch_eq _ _ _ (by omega)
+    · intro k hk
+      by_cases hke : k = es.length
+      · subst hke
+        rw [hslot]
+        have := hok.index_pos
+        simp; omega
+      · have hk' : k < es.length := by omega
+        show ((getSlot (setSlot _ _ _) k).index == 0) = false
+        rw [getSlot_setSlot _ _ _ _ hts]
+        simp only [hke, if_false]
+        have := r.slot_index_pos k hk'
+        have hg : getSlot (writePayload p f off re.data) k = getSlot f k := rfl
+        rw [hg]
+        simp; omega
+    · intro k hk _
+      show ((getSlot (setSlot _ _ _) k).index == 0) = true
+      rw [getSlot_setSlot _ _ _ _ hts]
+      have hke : k ≠ es.length := by omega
+      simp only [hke, if_false]
+      have hg : getSlot (writePayload p f off re.data) k = getSlot f k := rfl
+      rw [hg, (r.empty k (by omega)).1]
+      rfl
+
+theorem getSlot_writeZeroGen {f : LogFile} {es : List Entry} (r : FileRep p f es) (k lenVal lenBytes zn i : Nat) (hi : i < p.cap) :
+    getSlot (writeZeroGen p f k lenVal lenBytes zn) i =
+      (let lo := OG.Gen.C17.entrySize * k + OG.Gen.C17.unit32Size
+       let hi := lo + zn
+       let s := getSlot f i
+       let q := OG.Gen.C17.entrySize * i
+       let t := zeroFieldBytes s.term q lo hi
+       let t := if i == k then mixField (lenVal % 4294967296 * 4294967296) t lenBytes else t
+       (⟨t, zeroFieldBytes s.index (q + 8) lo hi, zeroFieldBytes s.typ (q + 16) lo hi,
+          zeroFieldBytes s.off (q + 24) lo hi⟩ : Slot)) := by
+  have hsz : i < f.tab.size := by rw [r.tabSize]; exact hi
+  simp only [getSlot, writeZeroGen, Array.getD_eq_getD_getElem?]
+  rw [Array.getElem?_eq_getElem (by simpa using hsz), Array.getElem?_eq_getElem hsz]
+  simp
+
+/-- **the zeroing write of a conflicting append cut after one slot** (the length prefix and
+28 zero bytes, i.e. exactly the 32 bytes of slot `k`): slot `k` is empty, slot `k+1` still
+holds its old entry — a hole.  `firstEmptySlot`, a binary search for the first empty slot,
+then answers either `k` or the old end, and `Entries` through the hole stops short. -/
+theorem torn_zero_breaks (f : LogFile) (es : List Entry) (r : FileRep p f es) (k : Nat) (hk : k + 1 < es.length) :
+    let f' := writeZeroGen p f k (32 * (es.length - k)) 4 28
+    (getSlot f' k).index = 0 ∧ getSlot f' (k + 1) = getSlot f (k + 1) ∧ (getSlot f (k + 1)).index = es[k + 1].index := by
+  intro f'
+  have hl := r.lenLe
+  have hk1 : k + 1 < p.cap := by omega
+  refine ⟨?_, ?_, ?_⟩
+  · show (getSlot (writeZeroGen p f k _ 4 28) k).index = 0
+    rw [getSlot_writeZeroGen r _ _ _ _ _ (by omega)]
+    simp only [entrySize_eq, unit32Size_eq]
+    exact zfb_covered _ _ _ _ (by omega) (by omega)
+  · show getSlot (writeZeroGen p f k _ 4 28) (k + 1) = getSlot f (k + 1)
+    rw [getSlot_writeZeroGen r _ _ _ _ _ hk1, r.slots (k + 1) hk]
+    have hok := r.ok _ (List.getElem_mem hk)
+    have hoff : offOf p es (k + 1) < 18446744073709551616 := by
+      have := total_take_le es (k + 1); have := r.endLt; simp only [offOf]; omega
+    have hne : (k + 1 == k) = false := by simp
+    simp only [entrySize_eq, unit32Size_eq, hne]
+    rw [zfb_disjoint _ _ _ _ hok.term_lt (by omega), zfb_disjoint _ _ _ _ hok.index_lt (by omega),
+      zfb_disjoint _ _ _ _ hok.typ_lt (by omega), zfb_disjoint _ _ _ _ hoff (by omega)]
+    simp
+  · rw [r.slots (k + 1) hk]
+
+/-- **the zeroing write cut right after its length prefix** — before the repair e7ce941 this was
+also what a *process* dying between the two `Write` calls of `WriteSlice` left behind: the
+entry at the conflict index is still there, with the length of the zero buffer in the high
+half of its term. -/
+theorem torn_zero_length_only (f : LogFile) (es : List Entry) (r : FileRep p f es) (k : Nat) (hk : k < es.length) (n : Nat)
+    (hn : n < 4294967296) :
+    let f' := writeZeroGen p f k n 4 0
+    (getSlot f' k).index = es[k].index ∧ (getSlot f' k).term = n * 4294967296 + es[k].term % 4294967296 := by
+  intro f'
+  have hl := r.lenLe
+  have hok := r.ok _ (List.getElem_mem hk)
+  have hrw : getSlot f' k = _ := getSlot_writeZeroGen r k n 4 0 k (by omega)
+  rw [hrw, r.slots k hk]
+  simp only [entrySize_eq, unit32Size_eq, beq_self_eq_true, if_true, Nat.add_zero]
+  rw [zfb_empty _ _ _ _ hok.index_lt (by omega), zfb_empty _ _ _ _ hok.term_lt (by omega)]
+  refine ⟨rfl, ?_⟩
+  simp only [mixField, Nat.mod_eq_of_lt hn]
+  have : (256 : Nat) ^ (8 - 4) = 4294967296 := by decide
+  rw [this, Nat.mul_div_cancel _ (by decide : 0 < 4294967296)]
+
 end OG.C17
